@@ -4,7 +4,8 @@ from .common import *
 RULE = ('cases: fractions n/d (d != 0, both signs) over int8..int64 components: every single int8 and int16 fraction '
         '(reduce/canonical/conversion), every pair of fractions with components in [-8,7] (quick) and every pair of int8 '
         'fractions (2^32, thorough) for the six comparisons and hash/equality, generated pairs (independent, proportional '
-        'k*n/k*d with k of either sign, numerator neighbours) and half-width components for arithmetic elsewhere. oracle: '
+        'k*n/k*d with k of either sign, numerator neighbours) and half-width components for arithmetic elsewhere; comparisons of '
+        'fraction<N1, D1> with fraction<N2, D2> whose four component types differ (unsigned denominators / numerators included). oracle: '
         'exact rationals (GMP mpq; 128-bit cross products for orderings). preconditions as stated: cross products fit the '
         'promoted component type, |components| representable for std::gcd. non-trivial: a negative denominator is involved '
         'or gcd > 1; distinct by (site, operands).')
@@ -19,6 +20,10 @@ def plan(tier, seed):
                  'c16::Cmp4<%s, %s>::reg()' % (t, t)]
     for a, b in [(S8, S32), (S32, S8), (S16, S64), (S64, S32), (S32, S64)]:
         regs += ['c16::Cmp<%s, %s>::reg()' % (a, b), 'c16::Cmp4<%s, %s>::reg()' % (a, b)]
+    # component types of their own, unsigned ones included
+    for n1, d1, n2, d2 in [(S64, S32, S64, U32), (S64, U32, S64, S32), (S32, S8, S32, U8), (S64, S16, S32, U16), (S32, U16, S64, S8), (S16, S8, S16, U8),
+                           (S64, S64, S64, U32), (U32, S32, S64, S32), (S64, S32, U16, S16), (S8, U8, S16, S8), (S64, U8, S64, S8), (S32, S32, S32, U16)]:
+        regs.append('c16::CmpND<%s, %s, %s, %s>::reg()' % (n1, d1, n2, d2))
     cases = 300000 if quick else 4000000
     enum_max = 2 ** 16 if quick else 2 ** 32
     units = [Unit('C16-gxx-%d' % i, 'gxx', 'props/C16.h', part, rc_cases=cases, enum_max=enum_max, chunk=8)
